@@ -24,7 +24,7 @@ Go(c, n) == l' = l + 1 /\ stats' = Bump(c) /\ s' = n /\ UNCHANGED <<bad, sc, emi
 Skip == l' = l + 1 /\ UNCHANGED <<bad, stats, s, sc, emitted>>
 
 EntryOf(n) == s.entries[CHOOSE i \in DOMAIN s.entries : s.entries[i].name = n]
-Healthy == {s.entries[i].name : i \in {j \in DOMAIN s.entries : Launchable(s.entries[j]) /\ s.entries[j].behaviour \in {"healthy", "liar"}}}
+Healthy == {s.entries[i].name : i \in {j \in DOMAIN s.entries : Launchable(s.entries[j]) /\ s.entries[j].behaviour \in {"healthy", "liar", "stubborn"}}}
 DieLater == {s.entries[i].name : i \in {j \in DOMAIN s.entries : Launchable(s.entries[j]) /\ s.entries[j].behaviour \in {"dielater", "hang"}}}
 
 TBegin == Go("scenarios", [entries |-> Ev.entries, dropins |-> SetOf(Ev.dropins), started |-> FALSE, syncfails |-> Ev.syncfails])
@@ -42,7 +42,7 @@ TReport ==
   ELSE IF SetOf(Ev.env) # EnvOf(e) \/ Len(Ev.env) # 3 THEN Reject("C18-environment", <<Ev.name, Ev.env>>)
   ELSE IF Ev.fd3 # "socket" THEN Reject("C18-socket", <<Ev.name, Ev.fd3>>)
   ELSE IF Len(Ev.leaks) > 0 THEN Reject("C18-descriptor-leak", <<Ev.name, Ev.leaks>>)
-  ELSE IF ~s.syncfails /\ e.behaviour \in {"healthy", "dielater", "failsync", "liar", "hang"} /\ ~Ev.configured THEN Reject("C18-not-configured", <<Ev.name>>)
+  ELSE IF ~s.syncfails /\ e.behaviour \in {"healthy", "dielater", "failsync", "liar", "hang", "stubborn", "linger"} /\ ~Ev.configured THEN Reject("C18-not-configured", <<Ev.name>>)
   ELSE IF Ev.configured /\ Ev.config # ConfigOf(e, s.dropins) THEN Reject("C18-configuration", <<Ev.name, Ev.config>>)
   ELSE Go("launched", s)
 
@@ -57,8 +57,10 @@ OrderOK(i) ==
   /\ Healthy \subseteq SetOf(q) /\ SetOf(q) \subseteq Healthy \cup DieLater
   /\ Len(q) = Cardinality(SetOf(q))
   /\ SortedIdx(q)
+\* scenarios with a lingering plugin: the runtime issues no request before it stops
+NoEvents == \E i \in DOMAIN s.entries : s.entries[i].behaviour = "linger"
 TOrder ==
-  IF s.syncfails THEN (IF Len(Ev.lines) > 0 THEN Reject("C18-invocation", <<0, Ev.lines>>) ELSE Go("reports", s))
+  IF s.syncfails \/ NoEvents THEN (IF Len(Ev.lines) > 0 THEN Reject("C18-invocation", <<0, Ev.lines>>) ELSE Go("reports", s))
   ELSE IF ~OrderOK(1) THEN Reject("C18-invocation", <<1, NamesOf(1)>>)
   ELSE IF ~OrderOK(2) THEN Reject("C18-invocation", <<2, NamesOf(2)>>)
   ELSE IF ~OrderOK(3) THEN Reject("C18-invocation", <<3, NamesOf(3)>>)
